@@ -229,3 +229,27 @@ def check(cx):
     cx.include(c04, {"C04.8"}, "C13.8", "shared with C04.8: the decision table of Snapshot::is_transaction_aborted (the only status "
                "query VACUUM uses for deleters) equals `xid in aborted set`; a narrower answer makes VACUUM take a rolled-back "
                "delete for a committed one", floor=1, skip=("is_committed_before_snapshot", "is_valid_for_snapshot"))
+
+    # ---- C13.9 an in-place rewrite of a cell replaces data and header together -------------------------------------------
+    r9 = cx.rule("C13.9", "MPT: in BtreeOps::replace every copy of the new cell's bytes into the page is followed on every success path by "
+                 "the store of the new cell's header (metadata): VACUUM shrinks a tuple's effective length without changing its padded "
+                 "footprint, so a header that is only rewritten when the footprint changes keeps the old length and the trimmed "
+                 "versions come back", floor=1)
+    reps = [g for g in p.fns.values() if g.name == "replace" and "storage::core::traits::BtreeOps" in g.id and not g.root]
+    if not reps:
+        cx.bad(r9, "anchor-missing:replace", "", "BtreeOps::replace not found")
+    for g in reps:
+        copies = [c for c in g.calls() if c.callee.endswith("copy_from_slice")]
+        metas = {c.callee for c in g.calls() if c.callee.rsplit("::", 1)[-1] == "metadata_mut"}
+        good = bool(copies) and bool(metas)
+        for c in copies:
+            if c.term["to"] is not None:
+                good = good and p.all_success_paths_call(g, metas, c.term["to"])
+        cx.verdict(good, r9, "replace:header-with-data", g.where(), "%d in-place copy(ies), each followed by the header store" % len(copies),
+                   "BtreeOps::replace can copy the new cell's bytes without storing its header: a cell rewritten with the same footprint "
+                   "(what VACUUM's version trimming produces) keeps its old effective length, storage grows with every UPDATE/VACUUM cycle")
+
+    # ---- C13.10 (construct shared with C11.4) -----------------------------------------------------------------------------
+    from . import c11
+    cx.include(c11, {"C11.4"}, "C13.10", "shared with C11.4: what VACUUM removes goes back to the pager - the removed cell's overflow chain is freed and "
+               "the rebalance starts at the leaf the cell was taken from, so emptied leaves are merged and freed (bounded storage)", floor=10)
